@@ -502,7 +502,14 @@ func (d *dealer) syncRegister(callee *wamp.Session, msg *wamp.Register, match, i
 
 		// Found an existing registration that has an invocation strategy that
 		// only allows a single callee on the given registration.
-		if reg.policy == "" || reg.policy == wamp.InvokeSingle {
+		var shared bool
+		switch reg.policy {
+		case wamp.InvokeRoundRobin, wamp.InvokeRandom, wamp.InvokeFirst, wamp.InvokeLast:
+			shared = true
+		}
+		// Any other policy, including one the dealer does not know, allows
+		// a single callee only.
+		if !shared {
 			d.log.Println("REGISTER for already registered procedure",
 				msg.Procedure, "from callee", callee)
 			d.trySend(callee, &wamp.Error{
